@@ -101,3 +101,11 @@ add("C11", "exploration",
     "debug/info/critical level, the channel log and the spawned stand-in process's argv are searched for each secret in raw, quoted, fmt-mangled and fragment forms; a "
     "blindness check requires that the monitor saw the corresponding 'redacted' write messages. Assumes devices do not echo secrets; response objects are out of scope.",
     "DESIGN.md §3 C11", "collecting logger + channel-log writer on authenticating/escalating sessions (login dialogues, escalations, platform on-open, real system transport with stand-in ssh incl. argv); multi-form secret search; monitor-blindness check")
+
+add("C12", "exploration",
+    "Exploration: in 400 (quick) / 15 000 (thorough) PRNG-generated sessions per seed (1-6-event dialogues with hidden inputs, completion patterns at every position, plain "
+    "and eager commands, and 2/3-level privilege escalations with every ask/grant/refuse/reject outcome) integer-comparison oracles on the transport event log check that no "
+    "input was written before the previous expected response (or prompt) had been delivered, no return preceded a plain command's echo, hidden inputs were never waited for "
+    "as echo, results were the whole dialogue, no input followed a completion pattern, and the secondary secret only reached the device in password state after its prompt. "
+    "Holds under the stated model assumptions (unique response tokens, in-sync session); known exception: first operation of a fresh session (stale initial prompt).",
+    "DESIGN.md §3 C12", "real channel/generic/network code against a causal CLI device model with PRNG-dribbled delivery; Delivered-at-write vs regexp match point comparisons on the transport event log; device-side line/state log")
